@@ -57,16 +57,27 @@ package httpcache
 //@   ensures result0 == stored.Data && result1 == nil                              # name: returns-stored
 //@   ensures upstreamCalls == old(upstreamCalls)                                    # name: no-upstream
 
+// The background revalidation contacts the origin: it must never be started for an
+// only-if-cached request (C18). Its body (goroutine, channel, select) is outside the
+// supported subset; only its precondition is used, at the `go` statement that spawns it.
+//@ func (*transport).backgroundRevalidate
+//@   trusted
+//@   property C18 C20
+//@   requires wired(r) && req != nil && stored != nil                      # name: well-formed
+//@   requires !reqOIC(req)                                                 # name: not-only-if-cached   props: C18
+//@   assigns *
+
 //@ func (*transport).handleStaleWhileRevalidate
-//@   property C01 C02 C20
+//@   property C01 C02 C18 C20
 //@   requires wired(r) && req != nil && stored != nil && stored.Data != nil && stored.Data.Header != nil && freshness != nil
+//@   requires !reqOIC(req)                                                 # name: not-only-if-cached   props: C18
 //@   assigns *
 //@   ensures result0 == stored.Data && result1 == nil                              # name: returns-stored
 //@   ensures upstreamCalls == old(upstreamCalls)                                    # name: no-upstream-in-foreground
 
 //@ func (*transport).handleCacheHit
 //@   property C01 C02 C18
-//@   requires wired(r) && req != nil && stored != nil && stored.Data != nil && stored.Data.Header != nil
+//@   requires wired(r) && req != nil && req.URL != nil && stored != nil && stored.Data != nil && stored.Data.Header != nil
 //@   let tq = old(ccText(req.Header))
 //@   let ts = old(ccText(stored.Data.Header))
 //@   let hq = dirsHas(tq)
